@@ -24,8 +24,9 @@ def run_property(prop, tier, seed, root=None, overrides=None, quiet=False):
             return 2
         mod.run(ctx)
         fixtures = None
-        if hasattr(mod, 'fixtures') and overrides is None:
-            fixtures = mod.fixtures(ctx)
+        exp = getattr(mod, 'PINNED_EXPECT', None)
+        if exp and root is None and overrides is None:
+            fixtures = run_pinned(mod, prop, tier, seed, exp)
         return report.finish(ctx, getattr(mod, 'FLOORS', {}), mod.EXPLANATION, mod.RULE_TEXT,
                              getattr(mod, 'LEVEL', ''), t0, fixtures=fixtures,
                              extra=getattr(ctx, 'extra', None), quiet=quiet)
@@ -39,6 +40,31 @@ def run_property(prop, tier, seed, root=None, overrides=None, quiet=False):
         print('ANALYSIS-ERROR property=%s internal error:' % prop)
         traceback.print_exc(file=sys.stdout)
         return 2
+
+
+PINNED_ROOT = os.path.join(report.VERIF, 'fixtures', 'pinned')
+
+
+def run_pinned(mod, prop, tier, seed, expected):
+    """Positive examples: the rules are run on the frozen copy of the pinned
+    (defective) tree; every listed defect construct must be reported there."""
+    out = []
+    try:
+        P2 = Program(PINNED_ROOT)
+        ctx2 = report.Ctx(P2, prop, tier, seed)
+        mod.run(ctx2)
+        obs = ctx2.obs
+        err = None
+    except Exception as e:      # noqa
+        obs = []
+        err = '%s: %s' % (type(e).__name__, e)
+    for rule, func, sub in expected:
+        hit = [o for o in obs if o.verdict == report.VIOLATION and o.rule == rule and o.function == func
+               and sub in o.construct]
+        out.append({'name': 'pinned-tree must-fire: %s %s [%s]' % (rule, func, sub), 'ok': bool(hit),
+                    'why': '' if hit else (err or 'the rule did not fire on the pinned defective tree'),
+                    'fired': [o.construct for o in hit][:3]})
+    return out
 
 
 def selfcheck():
